@@ -22,20 +22,26 @@ structure OrdEnv extends Env where
   origin : Nat → Rat
   avoid : Nat → Nat
 
-/-- `detail::UnitAvoidance<U>::value` (unit_of_measure.hh:1009-1035).  A stand-alone `Pow<B,N>` /
-`RatioPow<B,N,D>` is the one-element product of the model. -/
+/-- A one-element pack: what a stand-alone `Pow<B,N>` / `RatioPow<B,N,D>` is in the model. -/
+def UL.isSingle : UL → Bool
+  | .cons _ _ .nil => true
+  | _ => false
+
+def UL.headExp : UL → Rat
+  | .cons _ q _ => q
+  | .nil => 0
+
+/-- `detail::UnitAvoidance<U>::value` (unit_of_measure.hh:1009-1035). -/
 def U.avoidance (oe : OrdEnv) : U → Nat
   | .named n => oe.avoid n
   | .scaled _ _ => 3
-  | .prod (.cons _ q .nil) => if q.den = 1 then 4 else 5
-  | .prod _ => 1
+  | .prod ps => if ps.isSingle then (if ps.headExp.den = 1 then 4 else 5) else 1
   | .common _ => 6
   | .commonPoint _ => 7
 
 /-- A genuine `UnitProduct<...>` specialisation (not a stand-alone power). -/
 def U.isUnitProduct : U → Bool
-  | .prod (.cons _ _ .nil) => false
-  | .prod _ => true
+  | .prod ps => !ps.isSingle
   | _ => false
 
 mutual
